@@ -103,7 +103,7 @@ Proof.
   destruct (negb (outer_opens (kc (ens c)) (e_state e))); [intros _; exact (gstate_ens c)|].
   assert (harmless_here (ens c) e) as Hh' by (destruct Hh as [K|Hh]; [contradiction|exact Hh]).
   destruct (wrong_epoch (kc (ens c)) e).
-  - destruct (is_better (ens c) (e_epoch e) (e_ts e) (e_key e)).
+  - destruct (is_commit_kind e && is_better (ens c) (e_epoch e) (e_ts e) (e_key e)).
     + destruct (find_snap (e_epoch e) (queue (ens c))) as [s|]; [|intros _; exact (gstate_ens c)].
       destruct f as [|f']; [intros _; exact (gstate_ens c)|].
       intros Hrb. exfalso.
@@ -148,7 +148,7 @@ Proof.
   all: destruct (wrong_epoch (kc (ens c)) e); [|exact Hhere].
   all: assert (Hlate : snd (late (ens c) e (k_rec_epoch (kc c))) = RCommit -> e_auth e = true)
          by (unfold late; change (dedup (ens c)) with (dedup c); rewrite Hd; discriminate).
-  all: destruct (is_better (ens c) (e_epoch e) (e_ts e) (e_key e)); [|exact Hlate].
+  all: destruct (is_commit_kind e && is_better (ens c) (e_epoch e) (e_ts e) (e_key e)); [|exact Hlate].
   all: destruct (find_snap (e_epoch e) (queue (ens c))) as [s|] eqn:Es; [|discriminate].
   - discriminate.
   - apply IH; [exact K0|exact Hne|]. rewrite dget_rollback. change (dedup (ens c)) with (dedup c). rewrite Hd. reflexivity.
@@ -234,7 +234,7 @@ Proof.
   all: cbv zeta; assert (QR r (ens c)) as H1 by exact H.
   all: destruct ((e_kind e =? 3) || negb (outer_opens (kc (ens c)) (e_state e))); [exact H1|].
   all: destruct (wrong_epoch (kc (ens c)) e); [|apply QR_here; exact H1].
-  all: destruct (is_better (ens c) (e_epoch e) (e_ts e) (e_key e)); [|apply QR_late; exact H1].
+  all: destruct (is_commit_kind e && is_better (ens c) (e_epoch e) (e_ts e) (e_key e)); [|apply QR_late; exact H1].
   all: destruct (find_snap (e_epoch e) (queue (ens c))) as [s|] eqn:Es; [|exact H1].
   - exact H1.
   - apply IH. apply QR_rollback. exact H1.
@@ -457,7 +457,7 @@ Proof.
   destruct (negb (k_active (kc c))); [apply sim_same; reflexivity|].
   cbv zeta. change (ens (restart c)) with (restart (ens c)). change (kc (restart (ens c))) with (kc (ens c)).
   destruct ((e_kind e =? 3) || negb (outer_opens (kc (ens c)) (e_state e))); [apply sim_same; reflexivity|].
-  rewrite is_better_restart, Hb.
+  rewrite is_better_restart, Hb, !andb_false_r.
   destruct (wrong_epoch (kc (ens c)) e).
   - apply sim_same. apply late_restart.
   - apply here_restart.
@@ -632,7 +632,7 @@ Proof.
   all: cbv zeta; pose proof (Held_ens L c H) as H1.
   all: destruct ((e_kind e =? 3) || negb (outer_opens (kc (ens c)) (e_state e))); [apply Held_Grown; exact H1|].
   all: destruct (wrong_epoch (kc (ens c)) e); [|apply Grown_here; exact H1].
-  all: destruct (is_better (ens c) (e_epoch e) (e_ts e) (e_key e)); [|apply Held_Grown; apply Held_late; exact H1].
+  all: destruct (is_commit_kind e && is_better (ens c) (e_epoch e) (e_ts e) (e_key e)); [|apply Held_Grown; apply Held_late; exact H1].
   all: destruct (find_snap (e_epoch e) (queue (ens c))) as [s|] eqn:Es; [|apply Held_Grown; exact H1].
   - apply Held_Grown; exact H1.
   - apply IH. apply Held_rollback; [exact H1|]. apply find_snap_In in Es. apply Es.
